@@ -29,10 +29,10 @@ def deco(f):
     return f
 '''
 
-KINDS = ['assign', 'print', 'print2', 'expr', 'printexpr', 'none', 'multi', 'compound', 'def']
+KINDS = ['assign', 'print', 'print2', 'expr', 'printexpr', 'none', 'multi', 'compound', 'def', 'semicolon']
 # the richer statement grammar of the C01 program generator (C01, C18, C19, C20)
 MORE_KINDS = ['augassign', 'for', 'while', 'with', 'try', 'decodef', 'class', 'literal_comment', 'triple', 'triple_unprefixed',
-              'import', 'semicolon', 'comment', 'async_await', 'async_for', 'async_with']
+              'import', 'comment', 'async_await', 'async_for', 'async_with']
 ALL_KINDS = KINDS + MORE_KINDS
 
 
